@@ -41,10 +41,16 @@ def _by_name(prog, name):
     return prog.find_type(name)
 
 
-def _all_field_lists(rec, structs_only=True):
+# Checks whose oracle does not depend on *how* a union change is classified (metamorphic ones) may switch this off
+STRUCTS_ONLY = True
+
+
+def _all_field_lists(rec, structs_only=None):
     """rec and its anonymous member types (their .fields are mutable lists).  With structs_only, unions are
     left out: adding / removing / retyping a member of a union without changing the union's size is classified
     *harmless* by the documentation (and filtered by default), so its effect is not certain enough for C05."""
+    if structs_only is None:
+        structs_only = STRUCTS_ONLY
     out = [rec] if (rec.kind != "union" or not structs_only) else []
     for f in rec.fields:
         if isinstance(f.type, Record) and f.type.name is None:
@@ -231,7 +237,7 @@ def _category(t):
         return "ptr"
     if isinstance(t, Enum):
         return "int4"
-    return "aggregate:" + getattr(t, "name", "?") if hasattr(t, "name") else "other"
+    return "aggregate:" + (getattr(t, "name", None) or "anonymous@%x" % id(t)) if hasattr(t, "name") else "other"
 
 
 def m_change_return_type(prog, rng):
